@@ -149,6 +149,14 @@ class Interp(object):
             return len(args[0][1])
         if name in ('fabs', '__builtin_fabs') and args and isinstance(args[0], (int, float)):
             return abs(float(args[0]))
+        if name in ('tolower', 'toupper') and args and isinstance(args[0], int) and not isinstance(args[0], bool):
+            # the "C" locale, as everywhere in these rules; other values than those of unsigned char (and EOF) are not defined
+            c_ = args[0]
+            if not (-1 <= c_ <= 255):
+                raise AnalysisBroken('SHP: %s: %s of %d' % (where, name, c_))
+            if name == 'tolower':
+                return c_ + 32 if 65 <= c_ <= 90 else c_
+            return c_ - 32 if 97 <= c_ <= 122 else c_
         if name in ('memcpy', '__builtin_memcpy', '__builtin___memcpy_chk') and len(args) >= 3 and \
                 all(isinstance(a_, tuple) and a_[0] == 'n' for a_ in args[:2]):
             # a node copied as a whole over another (sizeof(cJSON) bytes): every field of the destination becomes the source's
